@@ -1,5 +1,6 @@
 import DaskModel.Model.Rename
 import DaskModel.Lemmas.TaskTerm
+import DaskModel.Lemmas.RenameLayer
 /-!
 # C16 — graph manipulation keeps values and changes only keys and ordering
 
@@ -95,6 +96,132 @@ theorem bind_waits (env : Obj → Option Obj) (blocker : Obj) (n : Node) :
 /-- the dependencies of a renamed node are the renamed dependencies -/
 theorem deps_renameNode_alias (ρ : Obj → Obj) (t : Obj) : (renameNode ρ (.alias t)).deps = [ρ t] := by
   simp [renameNode, Node.deps]
+
+/-! ### `Layer.clone` at layer level (highlevelgraph.py 263-288)
+
+`cloneSpecLayer` / `cloneLegacyLayer` (Model/Rename.lean) are the whole loop of `Layer.clone`, the function that the
+driver runs against the real method. `keys` is the set of replaced keys, `keyedRho keys ρ` the renaming that is actually
+applied (`clone_key` on `keys`, identity elsewhere); `D` is any finite universe containing the layer's keys and every key
+it references. `CloneCtx` asks that the applied renaming is injective on `D` — `layer_clone_ctx_of_fresh` derives it from
+`clone_key` being injective on `keys` and fresh. (The global injectivity that `clone_values` asks for can *not* hold for
+`keyedRho` with a fresh `ρ` — `k` and `ρ k` would both be sent to `ρ k` — which is why the layer theorems are stated
+relative to `D`.) -/
+
+/-- `CloneCtx` from the assumption on `clone_key`: injective on the replaced keys, fresh w.r.t. the universe -/
+theorem layer_clone_ctx_of_fresh (keys D : List Obj) (ρ : Obj → Obj) (g : NGraph)
+    (hk : ∀ kn ∈ g, kn.1 ∈ D) (hd : ∀ kn ∈ g, ∀ d ∈ kn.2.deps, d ∈ D)
+    (hinj : ∀ a ∈ keys, ∀ b ∈ keys, ρ a = ρ b → a = b) (hfresh : ∀ a ∈ keys, ρ a ∉ D) : CloneCtx keys D ρ g :=
+  ⟨hk, hd, keyedRho_inj_on keys D ρ hinj hfresh⟩
+
+/-- **`Layer.clone` keeps values** (no blocker): fuel for fuel, the cloned layer computes under the regenerated key
+    what the original computes under `k`; `hclosed` = entries that are not regenerated (omitted) do not refer to
+    regenerated keys -/
+theorem layer_clone_values {keys D : List Obj} {ρ : Obj → Obj} {g : NGraph} (H : CloneCtx keys D ρ g)
+    (hclosed : ∀ kn ∈ g, kn.1 ∉ keys → ∀ d ∈ kn.2.deps, d ∉ keys)
+    (cache cache' : Obj → Option Obj) (hc : ∀ k ∈ D, cache' (keyedRho keys ρ k) = cache k) (fuel : Nat) :
+    ∀ k ∈ D, evalKeyN (cloneSpecLayer keys ρ none g).1 cache' fuel (keyedRho keys ρ k) = evalKeyN g cache fuel k :=
+  cloneSpecLayer_values H hclosed cache cache' hc fuel
+
+/-- **`Layer.clone(…, bind_to=blocker)` keeps values**: once the blocker has a value, `k` computes `v` in the original
+    iff the regenerated key computes `v` in the cloned layer -/
+theorem layer_clone_bound_values {keys D : List Obj} {ρ : Obj → Obj} {g : NGraph} (H : CloneCtx keys D ρ g)
+    (hclosed : ∀ kn ∈ g, kn.1 ∉ keys → ∀ d ∈ kn.2.deps, d ∉ keys) (b x : Obj)
+    (hbf : ∀ k ∈ D, keyedRho keys ρ k ≠ b)
+    (cache cache' : Obj → Option Obj) (hbv : cache' b = some x) (hc : ∀ k ∈ D, cache' (keyedRho keys ρ k) = cache k) :
+    ∀ k ∈ D, ∀ v, Computes g cache k v ↔ Computes (cloneSpecLayer keys ρ (some b) g).1 cache' (keyedRho keys ρ k) v := by
+  have h := cloneSpecLayer_bound_values H hclosed b x hbf cache cache' hbv hc
+  intro k hk v
+  exact ⟨fun ⟨f, hf⟩ => ⟨f + 1, h.1 f k hk v hf⟩, fun ⟨f, hf⟩ => ⟨f, h.2 f k hk v hf⟩⟩
+
+/-- **a bound layer runs only after the blocker**: as long as neither the blocker nor a regenerated key has a value,
+    no regenerated key of the layer can be evaluated, at any depth (leaves read the blocker through `chunks.bind`, every
+    other regenerated entry reads a regenerated key) -/
+theorem layer_clone_waits {keys D : List Obj} {ρ : Obj → Obj} {g : NGraph} (H : CloneCtx keys D ρ g) (b : Obj)
+    (hbf : ∀ k ∈ D, keyedRho keys ρ k ≠ b)
+    (cache' : Obj → Option Obj) (hbv : cache' b = none) (hc : ∀ k ∈ keys, cache' (ρ k) = none) (fuel : Nat) :
+    ∀ k ∈ D, k ∈ keys → evalKeyN (cloneSpecLayer keys ρ (some b) g).1 cache' fuel (ρ k) = none :=
+  cloneSpecLayer_waits H b hbf cache' hbv hc fuel
+
+/-- **every regenerated entry that references no regenerated key is wrapped** in `chunks.bind(·, blocker)`, contributes
+    to `bound`, depends on the blocker and cannot be evaluated without it -/
+theorem layer_clone_leaf_wrapped {keys : List Obj} (ρ : Obj → Obj) (b : Obj) {k : Obj} {n : Node} (hk : k ∈ keys)
+    (hl : ∀ d ∈ n.deps, d ∉ keys) :
+    cloneSpecEntry keys ρ (some b) k n = ((ρ k, bindNode b (renameNode (keyedRho keys ρ) n)), true) ∧
+    b ∈ (cloneSpecEntry keys ρ (some b) k n).1.2.deps ∧
+    ∀ env : Obj → Option Obj, env b = none → evalNode env (cloneSpecEntry keys ρ (some b) k n).1.2 = none := by
+  have e := cloneSpecEntry_leaf ρ b hk ((specLeaf_true_iff keys n).mpr hl)
+  rw [e]
+  exact ⟨rfl, (bind_waits (fun _ => none) b _).1, fun env h => (bind_waits env b _).2 h⟩
+
+/-- … an entry that references a regenerated key is renamed but not wrapped (it waits through that key) … -/
+theorem layer_clone_inner_not_wrapped {keys : List Obj} (ρ : Obj → Obj) (bindTo : Option Obj) {k d : Obj} {n : Node}
+    (hk : k ∈ keys) (hd : d ∈ n.deps) (hdk : d ∈ keys) :
+    cloneSpecEntry keys ρ bindTo k n = ((ρ k, renameNode (keyedRho keys ρ) n), false) ∧
+    ρ d ∈ (cloneSpecEntry keys ρ bindTo k n).1.2.deps := by
+  have e := cloneSpecEntry_inner ρ bindTo hk ((specLeaf_false_iff keys n).mpr ⟨d, hd, hdk⟩)
+  rw [e, renameNode_deps]
+  exact ⟨rfl, List.mem_map.mpr ⟨d, hd, keyedRho_of_mem hdk⟩⟩
+
+/-- … and **entries outside `keys` are untouched** -/
+theorem layer_clone_untouched {keys : List Obj} (ρ : Obj → Obj) (bindTo : Option Obj) {k : Obj} (n : Node) (hk : k ∉ keys) :
+    cloneSpecEntry keys ρ bindTo k n = ((k, n), false) :=
+  cloneSpecEntry_outside ρ bindTo n hk
+
+/-- **`bound` is true iff some leaf was wrapped** (and a blocker was given) -/
+theorem layer_clone_bound_iff (keys : List Obj) (ρ : Obj → Obj) (bindTo : Option Obj) (g : NGraph) :
+    (cloneSpecLayer keys ρ bindTo g).2 = true ↔
+      ∃ b, bindTo = some b ∧ ∃ kn ∈ g, kn.1 ∈ keys ∧ ∀ d ∈ kn.2.deps, d ∉ keys := by
+  simp only [cloneSpecLayer_bound_iff, specLeaf_true_iff]
+
+/-! the legacy branch (`clone_value`) -/
+
+/-- `is_leaf` of `clone_value` ⇔ the value references none of the replaced keys (in the sense of `keys_in_tasks`) -/
+theorem legacy_clone_leaf_iff (keys : List Obj) (ρ : Obj → Obj) (v : Obj) :
+    (cloneValue keys ρ v).2 = false ↔ legacyRefs keys v = [] := by
+  rw [cloneValue_flag]; cases legacyRefs keys v <;> simp
+
+/-- legacy `bound` is true iff some regenerated value without reference to a regenerated key was wrapped -/
+theorem legacy_clone_bound_iff (keys : List Obj) (ρ : Obj → Obj) (bindTo : Option Obj) (bindFn : Obj) (g : LGraph) :
+    (cloneLegacyLayer keys ρ bindTo bindFn g).2 = true ↔
+      ∃ b, bindTo = some b ∧ ∃ kv ∈ g, kv.1 ∈ keys ∧ legacyRefs keys kv.2 = [] :=
+  cloneLegacyLayer_bound_iff keys ρ bindTo bindFn g
+
+/-- a legacy leaf is wrapped as `(chunks.bind, value, bind_to)` and then lists the blocker among its dependencies -/
+theorem legacy_clone_leaf_wrapped {keys : List Obj} (ρ : Obj → Obj) (allKeys : List Obj) (s : String) (bindFn : Obj)
+    {k v : Obj} (hk : k ∈ keys) (hl : legacyRefs keys v = []) (hf : bindFn.callable = true) (hb : Obj.str s ∈ allKeys) :
+    cloneLegacyEntryB keys ρ (some (.str s)) bindFn k v = ((ρ k, .tuple [bindFn, (cloneValue keys ρ v).1, .str s]), true) ∧
+    Obj.str s ∈ legacyRefs allKeys (cloneLegacyEntryB keys ρ (some (.str s)) bindFn k v).1.2 := by
+  rw [cloneLegacyEntryB_leaf ρ (.str s) bindFn hk hl]
+  exact ⟨rfl, legacy_bound_refs_blocker allKeys bindFn _ (.str s) hf rfl hb rfl (fun _ h => by cases h) (fun _ h => by cases h)⟩
+
+theorem legacy_clone_untouched {keys : List Obj} (ρ : Obj → Obj) (bindTo : Option Obj) (bindFn : Obj) {k : Obj} (v : Obj)
+    (hk : k ∉ keys) : cloneLegacyEntryB keys ρ bindTo bindFn k v = ((k, v), false) :=
+  cloneLegacyEntryB_outside ρ bindTo bindFn v hk
+
+/-! non-vacuity of the layer theorems: `a = f0(1)`, `b = f1(a, o)`, `o` omitted; `ρ` appends a prime -/
+section LayerExample
+def exRho : Obj → Obj
+  | .str s => .str (s ++ "'")
+  | o => o
+def exG : NGraph :=
+  [(.str "a", .task (.call (.fn 0)) [.raw (.int 1)] []),
+   (.str "b", .task (.call (.fn 1)) [.ref (.str "a"), .ref (.str "o")] []),
+   (.str "o", .data (.int 7))]
+def exKeys : List Obj := [.str "a", .str "b"]
+def exD : List Obj := [.str "a", .str "b", .str "o"]
+
+example : CloneCtx exKeys exD exRho exG :=
+  layer_clone_ctx_of_fresh exKeys exD exRho exG (by decide) (by decide) (by decide) (by decide)
+example : ∀ kn ∈ exG, kn.1 ∉ exKeys → ∀ d ∈ kn.2.deps, d ∉ exKeys := by decide
+example : ∀ k ∈ exD, keyedRho exKeys exRho k ≠ .str "blk" := by decide
+/-- the leaf `a` is wrapped, the inner `b` is renamed only, `o` is untouched, `bound` is set -/
+example : cloneSpecLayer exKeys exRho (some (.str "blk")) exG =
+    ([(.str "a'", .task .bindFirst [.task (.call (.fn 0)) [.raw (.int 1)] [], .ref (.str "blk")] []),
+      (.str "b'", .task (.call (.fn 1)) [.ref (.str "a'"), .ref (.str "o")] []),
+      (.str "o", .data (.int 7))], true) := by rfl
+example : (cloneSpecLayer exKeys exRho none exG).2 = false := by rfl
+example : legacyRefs [.str "a"] (.tuple [.fn 0, .int 1]) = [] := by decide
+end LayerExample
 
 /-! ### checkpoint: the aggregation tree reaches every input and computes `None` -/
 
